@@ -9,6 +9,16 @@ EVID = os.path.join(V, "evidence")
 KNOWN = os.path.join(V, "known_findings.txt")
 
 
+def _set_current_fx(fx):
+    """the helpers that look into crate-local callees while following a value (props.c15.roots) work on the facts of the
+    configuration currently being checked"""
+    try:
+        from props import c15
+        c15.FX[0] = fx
+    except ImportError:
+        pass
+
+
 class Ctx:
     def __init__(self, prop, tier, repo="/repo", seed=0):
         self.prop = prop
@@ -31,6 +41,7 @@ class Ctx:
     # ---- facts ----------------------------------------------------------------------------------
     def facts(self, cfg="tokio"):
         fx = facts.load(cfg, self.repo)
+        _set_current_fx(fx)
         if cfg not in self.cfgs_used:
             self.cfgs_used.append(cfg)
         return fx
@@ -45,6 +56,7 @@ class Ctx:
             return None
 
     def body(self, fx, f, stage="pre"):
+        _set_current_fx(fx)
         key = (fx.cfg, f["def"], stage)
         if key not in self._bodies:
             self._bodies[key] = Body(f, stage)
